@@ -60,16 +60,20 @@ def strip_guard(fi, key):
     def is_guard(st):
         return (isinstance(st, ast.If) and not st.orelse and "isinstance" in ast.unparse(st.test)
                 and isinstance(st.body[-1], ast.Raise) and "TreeError" in ast.unparse(st.body[-1]))
+    # the guard may stand anywhere among the statements of the function body (parent setter) / of the one loop's body
+    # (__check_children): a statement that is a skip can be dropped wherever it stands
     if key[0] == "parent":
-        if fn.body and is_guard(fn.body[0]):
-            g = fn.body.pop(0)
-            return fn, g.test
+        stmts = fn.body
+    else:
+        loop = [s for s in fn.body if isinstance(s, ast.For)]
+        if len(loop) != 1:
+            return None
+        stmts = loop[0].body
+    idx = [i for i, st in enumerate(stmts) if is_guard(st)]
+    if len(idx) != 1:
         return None
-    loop = [s for s in fn.body if isinstance(s, ast.For)]
-    if len(loop) == 1 and loop[0].body and is_guard(loop[0].body[0]):
-        g = loop[0].body.pop(0)
-        return fn, g.test
-    return None
+    g = stmts.pop(idx[0])
+    return fn, g.test
 
 
 def run(pid, tier, seed):
@@ -129,7 +133,13 @@ def run(pid, tier, seed):
         ex = heapworld.HeapExec(spec, fa)
         S0 = State("0")
         v = Const("arg", R)
-        env = {"value": V("ref", v), "child": V("ref", v), "self": V("ref", Const("arg_self", R))}
+        # the guard tests one variable (whatever it is called in the current source)
+        names = {n.id for n in ast.walk(test) if isinstance(n, ast.Name)} - {"isinstance", "NodeMixin", "LightNodeMixin", "self"}
+        env = {nm: V("ref", v) for nm in names}
+        env["self"] = V("ref", Const("arg_self", R))
+        if len(names) != 1:
+            add("%s[%s]/guard-evaluable" % ka, False, "the guard tests %s" % sorted(names))
+            continue
         p = Path(env, S0, [Or(v == NONE, isn(v)) if ka[0] == "parent" else isn(v)], [])
         try:
             for q, c in ex.ev_truth(test, p):
